@@ -2009,6 +2009,7 @@ func streamC(c *Ctx) error {
 		if !crashed && len(r.result.ProbeM) > 0 {
 			pid := c.Cases.Add("run_creates "+CoqList(r.result.ProbeM), "RO "+CoqList(r.result.ProbeO))
 			c.Stats.Count("coq_cases_proposer")
+			c.Stats.Case(fmt.Sprint("proposer", cs.Seed, r.E), true)
 			c.Stats.CaseIndex[fmt.Sprint(pid)] = map[string]interface{}{"stream": "proposer", "seed": cs.Seed, "E": r.E, "case": cs.ID, "run_seed": c.Seed, "tier": c.Tier}
 		}
 		c.Stats.Case(fmt.Sprint("chain", cs.Seed, r.E), crashed || r.result.Nontrivial)
